@@ -513,10 +513,12 @@ class ConnectedRemotePeer(RemotePeer):
                                                  if valid is not None and b.hash() in valid.block_by_hash]
                     return
 
-                self.local_peer.chain_manager.set_coinstate(coinstate_changed, validated=True)
                 # buffer only now: the miner's thread flushes the same buffer, and must not write a block that is still
-                # being validated (and may be rejected) to disk.
+                # being validated (and may be rejected) to disk. Buffer before publishing: once the block is published the
+                # miner can build on it, and a block found on top of it must not reach the buffer first (the store takes a
+                # block only after its parent).
                 self.local_peer.disk_interface.save_block(block)
+                self.local_peer.chain_manager.set_coinstate(coinstate_changed, validated=True)
                 self.local_peer.disk_interface.flush_blocks()
             else:
                 self.local_peer.disk_interface.save_block(block)
